@@ -501,7 +501,7 @@ def rms_table(rep, n):
 
 def listing_table(rep):
     """loadTimeSeriesData on exemplar listings held in a virtual file: with and without the header line, undefined
-    markers in either value column, blank lines, LF and CRLF; undefinedValue None (rows with an undefined value are
+    markers in either value column, every row in first position once, one-row listings, blank lines, LF and CRLF; undefinedValue None (rows with an undefined value are
     skipped), a number, and a symbolic number (substituted).  Every other row comes back, in order, as a tuple of
     the doubles its numerals denote."""
     from fractions import Fraction
@@ -516,7 +516,10 @@ def listing_table(rep):
     single = [["0.5", "66.125"], ["0.75", "--undefined--"], ["1", "70"]]
     n_cases = 0
     pending = None
-    for rows_, header in ((body, "time,pitch,intensity"), (body, None), (single, "time,intensity"), (single, None), ([], "time,pitch,intensity")):
+    # every row takes the first place once (a data row with an undefined marker right after / instead of the header)
+    shapes = [(rows0[k:] + rows0[:k], header) for rows0, hdrs in ((body, ("time,pitch,intensity", None)), (single, ("time,intensity", None)))
+              for header in hdrs for k in range(len(rows0))] + [([], "time,pitch,intensity"), ([body[1]], None), ([body[4]], None), ([single[1]], None)]
+    for rows_, header in shapes:
         for nl in ("\n", "\r\n"):
             for blank in (False, True):
                 for uv_name, uv in (("None", None), ("-1.5", Lin.num(Fraction(-3, 2)).as_float()), ("0.0", Lin.num(0).as_float()), ("a symbolic number", Lin.var("U"))):
